@@ -49,7 +49,7 @@ func drawName(rt *rapid.T, liveId uint16) (name string, class string) {
 	if dom != "" {
 		suffix = "." + dom + "."
 	}
-	switch rapid.IntRange(0, 6).Draw(rt, "nameKind") {
+	switch rapid.IntRange(0, 7).Draw(rt, "nameKind") {
 	case 0:
 		// ordinary look-ups
 		host := []string{"mail", "www", "ldap", "_dmarc", "ns1", "e", "v", "c", "y", "yabc", "z", "zabc12", "o", "r", "l", "m", "localhost", "*"}[rapid.IntRange(0, 17).Draw(rt, "host")]
@@ -71,6 +71,25 @@ func drawName(rt *rapid.T, liveId uint16) (name string, class string) {
 		uid := []string{"00", "01", commands.EncodeUserId(liveId), "zz", "ZZ", "-1", "!!", "1295", "99"}[rapid.IntRange(0, 8).Draw(rt, "uid")]
 		body := rapid.StringMatching(`[a-zA-Z0-9\-+]{0,50}`).Draw(rt, "soup")
 		return cmd + cache + uid + body + suffix, "soup"
+	case 7:
+		// command + cache + user id + arbitrary label octets (presentation format \\DDD), biased to the rare ones
+		cmd := string(cmdLetters[rapid.IntRange(0, len(cmdLetters)-1).Draw(rt, "cmd")])
+		uid := []string{commands.EncodeUserId(liveId), commands.EncodeUserId(liveId), "00", "zz"}[rapid.IntRange(0, 3).Draw(rt, "uid8")]
+		var sb strings.Builder
+		sb.WriteString(cmd + "abc" + uid)
+		for i, n := 0, rapid.IntRange(1, 40).Draw(rt, "octets"); i < n; i++ {
+			var b byte
+			switch rapid.IntRange(0, 3).Draw(rt, "octetKind") {
+			case 0:
+				b = []byte{0xfe, 0xff, 0x00, 0x7f, 0x80, 0xfd, 0xbc, 0x2e, 0x5c}[rapid.IntRange(0, 8).Draw(rt, "rare")]
+			case 1:
+				b = byte(rapid.IntRange(0x80, 0xff).Draw(rt, "high"))
+			default:
+				b = rapid.Byte().Draw(rt, "any")
+			}
+			sb.WriteString(fmt.Sprintf("\\%03d", b))
+		}
+		return sb.String() + suffix, "octets"
 	case 4:
 		// long multi-label soup
 		n := rapid.IntRange(1, 4).Draw(rt, "labels")
@@ -122,7 +141,7 @@ func drawValidRequest(rt *rapid.T, liveId uint16) (commands.Request, string) {
 
 var downCodecsC12 = []enc.Encoder{enc.Base32Encoding, enc.Base64Encoding, enc.Base64uEncoding, enc.Base85Encoding, enc.Base91Encoding, enc.Base128Encoding, enc.Base192Encoding, enc.RawEncoding}
 
-func drawMessage(rt *rapid.T, liveId uint16) (*mdns.Msg, map[string]interface{}) {
+func drawMessage(rt *rapid.T, liveId uint16, sessionCodec enc.Encoder) (*mdns.Msg, map[string]interface{}) {
 	name, class := drawName(rt, liveId)
 	qtypeChoices := []uint16{10, uint16(util.QueryTypePrivate), 16, 33, 15, 5, 28, 1, 0, 255, 252, 41, 65000, 65535}
 	qtype := qtypeChoices[rapid.IntRange(0, len(qtypeChoices)-1).Draw(rt, "qtype")]
@@ -134,8 +153,12 @@ func drawMessage(rt *rapid.T, liveId uint16) (*mdns.Msg, map[string]interface{})
 	var m *mdns.Msg
 	if class == "valid-request" {
 		req, kind := drawValidRequest(rt, liveId)
-		ser := commands.Serializer{Domain: domain, Upstream: util.UpstreamConfig{Encoder: enc.Base32Encoding}}
-		built, err := ser.EncodeDnsRequestWithParams(req, dnsmessage.Type(qtype), enc.Base32Encoding)
+		bodyCodec := enc.Base32Encoding
+		if rapid.Bool().Draw(rt, "bodyInSessionCodec") {
+			bodyCodec = sessionCodec
+		}
+		ser := commands.Serializer{Domain: domain, Upstream: util.UpstreamConfig{Encoder: bodyCodec}}
+		built, err := ser.EncodeDnsRequestWithParams(req, dnsmessage.Type(qtype), bodyCodec)
 		if err != nil {
 			return nil, nil
 		}
@@ -227,6 +250,13 @@ func TestServerWithstandsStrayMessages(t *testing.T) {
 		if err != nil {
 			rt.Fatalf("session setup: %v", err)
 		}
+		// the witness session runs on a drawn upstream codec, negotiated the way the handshake does it: stray messages
+		// naming its identifier are decoded with that codec before the sender's address is judged
+		upCodec := []enc.Encoder{enc.Base32Encoding, enc.Base64Encoding, enc.Base64uEncoding, enc.Base85Encoding, enc.Base91Encoding, enc.Base128Encoding}[rapid.IntRange(0, 5).Draw(rt, "sessionUpCodec")]
+		s.client.Serializer.Upstream.Encoder = upCodec
+		if err := s.client.SetEncodingUpstream(); err != nil || s.client.Serializer.Upstream.Encoder != upCodec {
+			rt.Fatalf("could not switch the witness session to %v: %v", upCodec, err)
+		}
 		if msg := s.transfer(100, 300); msg != "" {
 			rt.Fatalf("session does not work before any stray message: %s", msg)
 		}
@@ -241,7 +271,7 @@ func TestServerWithstandsStrayMessages(t *testing.T) {
 			rt.Fatalf("C12 [%s] %v: %s", sig, d, msg)
 		}
 		for i := 0; i < n; i++ {
-			m, d := drawMessage(rt, s.client.userId)
+			m, d := drawMessage(rt, s.client.userId, upCodec)
 			if m == nil {
 				continue
 			}
@@ -332,6 +362,28 @@ func TestOwnOptionsAreBounded(t *testing.T) {
 
 // ---- client side: arbitrary answers --------------------------------------------------------------------------------
 
+// binaryPayload: 0-20 bytes for the binary record types, with a plausible order tag and command letter in front
+// sometimes, and biased to the octets a codec alphabet does not contain
+func binaryPayload(rt *rapid.T, label string) []byte {
+	n := rapid.IntRange(0, 20).Draw(rt, label+"Len")
+	b := make([]byte, n)
+	for i := range b {
+		switch rapid.IntRange(0, 3).Draw(rt, label+"Kind") {
+		case 0:
+			b[i] = []byte{0xfe, 0xff, 0x00, 0x7f, 0x80, 0xfd, 0xbc}[rapid.IntRange(0, 6).Draw(rt, label+"Rare")]
+		case 1:
+			b[i] = "cvoyzrel"[rapid.IntRange(0, 7).Draw(rt, label+"Cmd")]
+		default:
+			b[i] = rapid.Byte().Draw(rt, label+"Any")
+		}
+	}
+	if n >= 3 && rapid.Bool().Draw(rt, label+"Tag") {
+		b[0], b[1] = 1, 0
+		b[2] = "cvoyzre"[rapid.IntRange(0, 6).Draw(rt, label+"Letter")]
+	}
+	return b
+}
+
 func drawAnswer(rt *rapid.T) (*mdns.Msg, map[string]interface{}) {
 	q := &mdns.Msg{}
 	q.SetQuestion("cabc00aaaa."+domain+".", uint16(util.QueryTypeNull))
@@ -350,10 +402,10 @@ func drawAnswer(rt *rapid.T) (*mdns.Msg, map[string]interface{}) {
 		switch rapid.IntRange(0, 8).Draw(rt, "rr") {
 		case 0:
 			kinds = append(kinds, "NULL")
-			r.Answer = append(r.Answer, &mdns.NULL{Hdr: hdr(mdns.TypeNULL), Data: string(rapid.SliceOfN(rapid.Byte(), 0, 6).Draw(rt, "null"))})
+			r.Answer = append(r.Answer, &mdns.NULL{Hdr: hdr(mdns.TypeNULL), Data: string(binaryPayload(rt, "null"))})
 		case 1:
 			kinds = append(kinds, "PRIVATE")
-			r.Answer = append(r.Answer, &mdns.PrivateRR{Hdr: hdr(util.TypeSocketAce), Data: &util.SocketAcePrivate{Data: rapid.SliceOfN(rapid.Byte(), 0, 6).Draw(rt, "priv")}})
+			r.Answer = append(r.Answer, &mdns.PrivateRR{Hdr: hdr(util.TypeSocketAce), Data: &util.SocketAcePrivate{Data: binaryPayload(rt, "priv")}})
 		case 2:
 			kinds = append(kinds, "TXT")
 			var txt []string
@@ -378,7 +430,10 @@ func drawAnswer(rt *rapid.T) (*mdns.Msg, map[string]interface{}) {
 			r.Answer = append(r.Answer, &mdns.A{Hdr: hdr(mdns.TypeA), A: net.IPv4(byte(rapid.IntRange(0, 255).Draw(rt, "a")), 1, 2, 3)})
 		case 7:
 			kinds = append(kinds, "AAAA")
-			r.Answer = append(r.Answer, &mdns.AAAA{Hdr: hdr(mdns.TypeAAAA), AAAA: net.ParseIP("2001:db8::1")})
+			ip := make(net.IP, 16)
+			copy(ip, binaryPayload(rt, "aaaa"))
+			ip[0], ip[1] = byte(i+1), 0
+			r.Answer = append(r.Answer, &mdns.AAAA{Hdr: hdr(mdns.TypeAAAA), AAAA: ip})
 		default:
 			kinds = append(kinds, "SOA")
 			r.Answer = append(r.Answer, &mdns.SOA{Hdr: hdr(mdns.TypeSOA), Ns: "ns.", Mbox: "m.", Serial: 1})
